@@ -125,6 +125,24 @@ func Explore(prog *ssa.Program, fn *ssa.Function, args []int, cfg *Config, opts 
 	ex.res = &Result{AssertReach: map[string]int64{}, CoverReach: map[string]int64{}, FuncsRun: map[string]int64{}, FuncInstrs: map[string]int{}}
 	t0 := time.Now()
 	var wg sync.WaitGroup
+	stopTick := make(chan struct{})
+	if opts.Progress != nil {
+		go func() {
+			tk := time.NewTicker(5 * time.Second)
+			defer tk.Stop()
+			for {
+				select {
+				case <-stopTick:
+					return
+				case <-tk.C:
+					ex.mu.Lock()
+					q, idle := len(ex.queue), ex.idle
+					ex.mu.Unlock()
+					opts.Progress(fmt.Sprintf("  ... %.0fs paths started=%d queue=%d idle=%d", time.Since(t0).Seconds(), atomic.LoadInt64(&ex.paths), q, idle))
+				}
+			}
+		}()
+	}
 	for w := 0; w < opts.Workers; w++ {
 		wg.Add(1)
 		go func(w int) {
@@ -133,7 +151,14 @@ func Explore(prog *ssa.Program, fn *ssa.Function, args []int, cfg *Config, opts 
 		}(w)
 	}
 	wg.Wait()
+	close(stopTick)
 	ex.res.Wall = time.Since(t0)
+	sort.Slice(ex.res.Samples, func(a, b int) bool {
+		return hashEvents(opts.Seed, ex.res.Samples[a].Events) < hashEvents(opts.Seed, ex.res.Samples[b].Events)
+	})
+	if len(ex.res.Samples) > opts.Samples {
+		ex.res.Samples = ex.res.Samples[:opts.Samples]
+	}
 	sort.Slice(ex.res.Samples, func(a, b int) bool { return ex.res.Samples[a].Events < ex.res.Samples[b].Events })
 	sort.Strings(ex.res.Inconclusive)
 	return ex.res
@@ -262,7 +287,7 @@ func (ex *explorer) worker(w int) {
 		if atomic.LoadInt32(&ex.stop) != 0 {
 			continue // drain
 		}
-		if opts.MaxPaths > 0 && atomic.AddInt64(&ex.paths, 1) > opts.MaxPaths {
+		if n := atomic.AddInt64(&ex.paths, 1); opts.MaxPaths > 0 && n > opts.MaxPaths {
 			ex.inconclusive(fmt.Sprintf("path budget of %d exhausted", opts.MaxPaths))
 			atomic.StoreInt32(&ex.stop, 1)
 			continue
@@ -387,6 +412,7 @@ func renderPanic(in *interpreter, p targetPanic) string {
 func (ex *explorer) runPath(in *interpreter, sym *symCtx, prefix []event) (outcome interface{}) {
 	sym.beginPath(prefix)
 	in.stack = in.stack[:0]
+	in.sp = 0
 	in.frozenCells = nil
 	defer func() {
 		if r := recover(); r != nil {
